@@ -366,6 +366,73 @@ def rnd8(p, res):
     return n
 
 
+def rnd9(p, res):
+    """the Gaussian samplers scale sigma and the truncation bound alike: the standard deviation handed to `Normal::new` (or to a sampler's `sigma` parameter) and the bound of
+    the rejection loop (or the `bound` parameter) carry the same scale factor - the value `NoiseInfos::target_limb_and_scale` returns for a noise position inside a limb"""
+    from .c20 import cap_subst_for
+    from .sym import Poly
+    n = 0
+
+    def scale_atoms(pl, depth=0):
+        out = set()
+        for a in pl.atoms():
+            if a[0] == "call":
+                out.add(a[:3])
+            elif a[0] == "f" and depth < 4:
+                for k in a[2]:
+                    try:
+                        out |= scale_atoms(Poly(dict(k)), depth + 1)
+                    except (TypeError, ValueError):
+                        pass
+        return out
+    for f in sorted(p.lib_fns(), key=lambda x: x.uid):
+        if f.kind == "Closure" or not f.uid.startswith(("poulpy_cpu_ref", "poulpy_cpu_avx", "poulpy_hal", "poulpy_core")) or not f.blocks:
+            continue
+        sym = None
+        # (a) Normal::new(mean, sigma) + rejection comparison in a closure of the same function
+        news = [(bi, t) for bi, t in f.calls() if (f.callee_def(t) or {}).get("n") == "new" and "Normal" in (f.callee_def(t) or {}).get("p", "") and len(t["a"]) == 2]
+        if news:
+            sym = Sym(f, Flow(f))
+            sig = sym.operand(news[0][1]["a"][1])
+            bounds = []
+            for cl in p.closures_of(f):
+                cs = Sym(cl, Flow(cl), cap_subst=cap_subst_for(f, sym, cl.uid))
+                for blk in cl.blocks:
+                    for st in blk["s"]:
+                        if st[0] == "A" and st[2]["k"] == "Bin" and st[2]["op"] in ("Gt", "Ge", "Lt", "Le"):
+                            x, y = cs.operand(st[2]["o"][0]), cs.operand(st[2]["o"][1])
+                            for u, v in ((x, y), (y, x)):
+                                if any(a[0] == "f" and a[1] == "abs" for a in u.atoms()):
+                                    bounds.append(v)
+            for b in bounds:
+                n += 1
+                if scale_atoms(sig) == scale_atoms(b):
+                    res.ok("RND-9", {"fn": f.pretty, "sigma": repr(sig), "bound": repr(b)})
+                else:
+                    res.bad("RND-9", f.pretty, "sigma-bound-scaled-differently",
+                            "%s samples with standard deviation `%r` and truncates at `%r`: one of the two lost the scale factor of the noise position - for a position that is not a "
+                            "multiple of the radix the error has another standard deviation than configured" % (f.pretty, sig, b), site=f.where(news[0][1]["l"]))
+        # (b) call sites of samplers with `sigma` and `bound` parameters
+        for bi, t in f.calls():
+            d = f.callee_def(t) or {}
+            tg = [p.fn(u) for u in p.targets(f, t) if p.fn(u) is not None]
+            if not tg:
+                continue
+            pn = {v: k for k, v in tg[0].param_names().items()}
+            if "sigma" not in pn or "bound" not in pn or pn["sigma"] - 1 >= len(t["a"]) or pn["bound"] - 1 >= len(t["a"]):
+                continue
+            if sym is None:
+                sym = Sym(f, Flow(f))
+            sig, b = sym.operand(t["a"][pn["sigma"] - 1]), sym.operand(t["a"][pn["bound"] - 1])
+            n += 1
+            if scale_atoms(sig) == scale_atoms(b):
+                res.ok("RND-9")
+            else:
+                res.bad("RND-9", f.pretty, "sigma-bound-scaled-differently:%s" % tg[0].name,
+                        "%s calls %s with sigma `%r` and bound `%r`: one of the two lost the scale factor of the noise position" % (f.pretty, tg[0].name, sig, b), site=f.where(t["l"]))
+    return n
+
+
 def run(res, tier):
     res.level = "other"
     res.explanation = ("Call discipline behind C06, decided on MIR with an interprocedural role inference over `&mut Source` / seed values: every routine whose streams reach a mask or "
@@ -379,6 +446,7 @@ def run(res, tier):
     res.rule("RND-6", "in every noise kernel the radix handed to the noise sink, the mask sink and the result normalisation is one and the same value")
     res.rule("RND-7", "after the noise sink has added the error to a buffer, nothing plainly overwrites that buffer (store that is not read-modify-write, zero/fill/copy, overwrite-type HAL op, including inside later closures) before it is consumed")
     res.rule("RND-8", "fixed-Hamming-weight samplers set each of their hw slots to a value that is non-zero for every value of the random bit")
+    res.rule("RND-9", "sigma and truncation bound of every Gaussian sampling site carry the same scale factor")
     res.rule("RND-5", "HashMap iteration flows into an order-insensitive consumer or is sorted before use")
     res.assumptions = ["noise/mask sink implementations (sampling kernels) are as documented (C01/C10 territory)", "do-while abstraction: an encryption over zero rows/columns writes no cell"]
     cfgs = ["avx-dev"] if tier == "quick" else ["avx-dev", "ref-dev", "avx-nodbg"]
@@ -390,6 +458,8 @@ def run(res, tier):
         res.extra["role_fixpoint_rounds"] = rounds
         res.fn_count += len(eng.fns)
         inj, inj_info, cfgs_cache = noise_injecting(p, eng)
+        n9 = rnd9(p, res)
+        res.floor("RND-9", "Gaussian sampling sites (sigma, bound)", n9, 4)
         n8 = rnd8(p, res)
         res.floor("RND-8", "fixed-weight samplers", n8, 2)
 
